@@ -216,6 +216,19 @@ def monitors(case, real, want):
                 for r_ in ran:
                     if r_.isdigit() and int(r_) in last_ood["targets_known"] and int(r_) not in last_ood["listing"]:
                         out.append(("C17", "target %s executed by %r was not listed by the redo-ood just before" % (r_, o), i))
+                # C17 upper bound (conservative form): a listed target that this command was asked for directly and did
+                # not rebuild, although the command succeeded and no checksummed target was rebuilt in it (so the listing
+                # cannot be the allowed over-approximation behind a checksum)
+                def is_stamped(t):
+                    do = next((c for c in case.rules.get(t, []) if prev["fs"].get(c) is not None), None) if prev else None
+                    sc = progs.get((int(prev["fs"][do]) - 3) // 2, {}) if do is not None and prev["fs"][do].isdigit() else {}
+                    return bool(sc.get("stamp"))
+                ran_ids = [int(x) for x in ran if x.isdigit()]
+                if s["rv"] == 0 and not any(is_stamped(t) for t in ran_ids) and not any(is_stamped(t) for t in case.rules):
+                    for t in sorted(last_ood["listing"]):
+                        if t in ts and t not in ran_ids:
+                            gone = not any(prev["fs"].get(c) is not None for c in case.rules.get(t, [])) if prev else False
+                            out.append(("C17", "ood-upper: target %s (%s) was listed by redo-ood, then asked for by %r, which succeeded without rebuilding it; no checksummed target is involved%s" % (t, case.names[t], o, " [every .do candidate of it had been removed]" if gone else ""), i))
             last_ood = None
         if k == "ood":
             known_t = set(f for f, r in s["db"].items() if r["gen"])
@@ -384,6 +397,18 @@ def nested_overbuild_matcher(listed_under, inner=None):
     def matcher(case, mon):
         if kf and mon[0] == "C02" and mon[1].startswith("nested-checksum-overbuild:"):
             return "a target whose checksummed dependency was rebuilt with the SAME checksum is rebuilt all the same when what changed lies behind a second checksummed target below it (the re-decision after the out-of-band rebuild may not go out of band again, builder.rs BuildJob::start NeedTargets + no_oob)"
+        return inner(case, mon) if inner else None
+    return matcher
+
+
+def rule_removed_matcher(listed_under, inner=None):
+    """Known-finding matcher for `redo-ood` listing a target whose every .do candidate was removed (known_findings.json, id
+    ood-lists-target-whose-rule-was-removed), combined with another matcher."""
+    kf = [k for k in known_findings(listed_under) if k.get("id") == "ood-lists-target-whose-rule-was-removed" and k.get("status") == "known"]
+
+    def matcher(case, mon):
+        if kf and mon[0] == "C17" and mon[1].startswith("ood-upper:") and mon[1].endswith("[every .do candidate of it had been removed]"):
+            return "redo-ood lists a generated file whose .do files have all been removed; the next redo-ifchange of it runs nothing and turns it into a source (the dirtiness walk does not look for rules)"
         return inner(case, mon) if inner else None
     return matcher
 
